@@ -188,6 +188,60 @@ fn long_instruction_frames(ctx: &Ctx, m128: bool, rate: usize) {
     ctx.outcome(0x1060_0000 ^ (rate as u64) << 8 ^ overruns.len() as u64);
 }
 
+/// Configuration corners: (a) beeper disabled - every port FE value (EAR, MIC, both) leaves the
+/// output at 0; (b) the AY is switched on/off at run time (Emulator::set_ay_enabled, which the SZX
+/// loader also calls) on machines with volume 40 / 100 / 180 - the beeper levels still follow the
+/// configured volume afterwards.
+fn configuration_corners(ctx: &Ctx) {
+    for m128 in [false, true] {
+        for val in [0x08u8, 0x10, 0x18] {
+            for ay in [false, true] {
+                let mut e = machine(m128, 44100, 100, false, ay);
+                to_frame_end(&mut e, m128);
+                rig::drain_audio(&mut e);
+                let start = e.verif_frame_clocks();
+                out_at(&mut e, 1000usize.max(start), val);
+                to_frame_end(&mut e, m128);
+                rig::drain_audio(&mut e);
+                to_frame_end(&mut e, m128);
+                let got = rig::drain_audio(&mut e);
+                ctx.add_eval(1);
+                if let Some(s) = got.iter().find(|s| s.0.abs() > 1e-6 || s.1.abs() > 1e-6) {
+                    ctx.violation(
+                        &format!("C19:beeper-disabled-not-silent:{}", if m128 { "128k" } else { "48k" }),
+                        &format!("beeper disabled (AY {}): after OUT (FE),{:02x} the samples are {:?} instead of 0", if ay { "on, silent" } else { "off" }, val, s),
+                        json!({"kind":"config","m128":m128,"beeper":false,"ay":ay,"val":val}),
+                    );
+                }
+            }
+        }
+        for volume in [40u8, 100, 180] {
+            for (ay0, ay1) in [(false, true), (true, false), (true, true), (false, false)] {
+                let mut e = machine(m128, 44100, volume, true, ay0);
+                to_frame_end(&mut e, m128);
+                rig::drain_audio(&mut e);
+                e.set_ay_enabled(ay1);
+                let start = e.verif_frame_clocks();
+                out_at(&mut e, 1000usize.max(start), 0x10);
+                to_frame_end(&mut e, m128);
+                rig::drain_audio(&mut e);
+                to_frame_end(&mut e, m128);
+                let got = rig::drain_audio(&mut e);
+                let want = level(0x10, volume);
+                ctx.add_eval(1);
+                if let Some(s) = got.iter().find(|s| (s.0 - want).abs() > 1e-6 || (s.1 - want).abs() > 1e-6) {
+                    ctx.violation(
+                        &format!("C19:level-after-runtime-ay-toggle:{}", if m128 { "128k" } else { "48k" }),
+                        &format!("volume {}: AY enable switched {} -> {} at run time, then OUT (FE),10h: samples are {:?}, the speaker level at this volume is {}", volume, ay0, ay1, s, want),
+                        json!({"kind":"config","m128":m128,"volume":volume,"ay0":ay0,"ay1":ay1}),
+                    );
+                }
+            }
+        }
+    }
+    ctx.outcome(0xC0F1);
+}
+
 fn drain_schedules(ctx: &Ctx, m128: bool, rate: usize, ay: bool) {
     let sp = spec(m128);
     let spf = rate / 50;
@@ -269,7 +323,9 @@ pub fn run(tier: Tier, seed: u64, replay: Option<String>) -> i32 {
         let c = &v["case"];
         let m128 = c["m128"].as_bool().unwrap_or(false);
         let rate = c["rate"].as_u64().unwrap_or(44100) as usize;
-        if c["kind"] == "long-instr" {
+        if c["kind"] == "config" {
+            configuration_corners(&ctx);
+        } else if c["kind"] == "long-instr" {
             long_instruction_frames(&ctx, m128, rate);
         } else if c["kind"] == "toggle" {
             toggle_case(&ctx, m128, rate, c["volume"].as_u64().unwrap_or(100) as u8, c["bit"].as_u64().unwrap_or(16) as u8, c["t"].as_u64().unwrap_or(0) as usize, c["second"].as_u64().map(|x| x as usize));
@@ -327,13 +383,14 @@ pub fn run(tier: Tier, seed: u64, replay: Option<String>) -> i32 {
         let (m128, rate) = ljobs[j];
         long_instruction_frames(&ctx, m128, rate);
     });
+    configuration_corners(&ctx);
     ctx.add_nontrivial(jobs.len() as u64 + djobs.len() as u64 * 64 + ljobs.len() as u64);
     ctx.sample(json!({"rate":44100,"m128":false,"toggle_bit":16,"t":34944,"expected_edge_sample":"441 +- 1"}));
     ctx.note("toggle_cases", json!(jobs.len()));
     ctx.note("drain_patterns", json!(djobs.len() * 64));
     ctx.note("not_judged", json!("which frame the few samples belong to that are produced while the last instruction of a frame runs into the next one (they are counted by emulated time)"));
     ctx.finish(
-        "sample rates {8000,8001,11025,22050,44100,44099,48000,96000,192000,384000} x {48K,128K}: one OUT (FE) toggling bit 4 with its start at every T of the frame (quick: first, middle and last 256 T), sparser sets for bit 3, volumes {0,1,200} and two toggles closer than one sample; per drained frame floor(rate/50) samples (by emulated time), every sample before/after the edge window equals the level set, the edge within one sample of the OUT, all samples finite and bounded; all 64 drain/no-drain patterns over 6 frames x rates x machines x AY off / on and sounding (three tones + noise at full volume): queue always below two frames' worth, every sample finite and within (0.6 + 3.75) x volume/200; a free-running loop of 23/19/12-T instructions over 60 frames (frame ends overrun by varying amounts), drained at every boundary: exactly floor(rate/50) samples per frame at every rate. distinct_nontrivial = cases",
+        "sample rates {8000,8001,11025,22050,44100,44099,48000,96000,192000,384000} x {48K,128K}: one OUT (FE) toggling bit 4 with its start at every T of the frame (quick: first, middle and last 256 T), sparser sets for bit 3, volumes {0,1,200} and two toggles closer than one sample; per drained frame floor(rate/50) samples (by emulated time), every sample before/after the edge window equals the level set, the edge within one sample of the OUT, all samples finite and bounded; all 64 drain/no-drain patterns over 6 frames x rates x machines x AY off / on and sounding (three tones + noise at full volume): queue always below two frames' worth, every sample finite and within (0.6 + 3.75) x volume/200; a free-running loop of 23/19/12-T instructions over 60 frames (frame ends overrun by varying amounts), drained at every boundary: exactly floor(rate/50) samples per frame at every rate; beeper disabled (EAR/MIC values leave the output at 0) and the AY switched on/off at run time at volumes 40/100/180 (levels keep following the volume). distinct_nontrivial = cases",
         false,
         &["frame clock placed through the hook before each OUT; remaining frame is idle loop", "beeper-only machines for the edge test so the AY path does not blur levels"],
     )
